@@ -40,8 +40,24 @@ func c03RecB() any {
 	return rec{"b-other", "b-name"}
 }
 
-// c03Extras adds the Go-only values every environment carries.
-func c03Extras(env map[string]any) map[string]any {
+// c03Engine is the engine of a history: two partials are registered before it is used.
+func c03Engine() *liquid.Engine {
+	e := newEngine(nil)
+	for name, src := range map[string]string{"c03-p1.html": "[A {{ n }}{% assign inc_a = 1 %}]", "c03-p2.html": "[B {{ s }}{% for q in a %}{% cycle 'x', 'y' %}{% endfor %}]"} {
+		if _, err := e.ParseTemplateAndCache([]byte(src), name, 1); err != nil {
+			panic(err)
+		}
+	}
+	return e
+}
+
+// c03Extras adds the Go-only values every environment carries; j is the environment's index.
+func c03Extras(env map[string]any, j int) map[string]any {
+	// which partial an include names is a matter of the bindings
+	env["partial"] = []string{"c03-p1.html", "c03-p2.html"}[j%2]
+	env["pnames"] = []any{"c03-p1.html", "c03-p2.html", "c03-p1.html"}[j%2:]
+	// keys that are equal as Liquid values but of different Go types
+	env["mx"] = map[any]any{int64(1): "one", float64(1): "uno", int8(1): "eins", "1": "str", 2: "two", uint8(2): "zwei"}
 	env["p1"], env["p2"] = c03RecA(), c03RecB()
 	env["dm"] = map[string]any{"d": hx.Drop{V: "dropped"}, "dd": hx.Drop{V: hx.Drop{V: []any{1, 2}}}, "plain": 1}
 	return env
@@ -59,7 +75,7 @@ type c03Case struct {
 const c03Probe = "{{ v1 }}|{{ v2 }}|{{ v3 }}|{{ my-var }}|{{ c1 }}|{{ c2 }}|{{ ok? }}|{{ i }}|{{ j }}|{{ it }}|{{ forloop }}|{{ forloop.index }}|{{ n }}|{{ s }}|{{ a | join: ',' }}|{{ x | join: ',' }}"
 
 var c03History = hx.Define("c03.history", func(c *c03Case, s *hx.Sub) *hx.Violation {
-	eng := newEngine(nil)
+	eng := c03Engine()
 	srcs := make([]string, len(c.Templates), len(c.Templates)+len(c.Raw))
 	for i, nodes := range c.Templates {
 		var hy []bool
@@ -86,7 +102,7 @@ var c03History = hx.Define("c03.history", func(c *c03Case, s *hx.Sub) *hx.Violat
 	envs := make([]map[string]any, len(c.Envs))
 	prints := make([]string, len(c.Envs))
 	for j, b := range c.Envs {
-		envs[j] = c03Extras(b.Realise())
+		envs[j] = c03Extras(b.Realise(), j)
 		prints[j] = hx.Fingerprint(envs[j])
 	}
 	renderVia := func(via int, e *liquid.Engine, t *liquid.Template, src string, env map[string]any) (res string, pi *hx.PanicInfo) {
@@ -155,11 +171,11 @@ var c03History = hx.Define("c03.history", func(c *c03Case, s *hx.Sub) *hx.Violat
 		key := [2]int{i, j}
 		if _, seen := pristine[key]; !seen {
 			// what a fresh engine with freshly built, equal bindings gives
-			ft, err := newEngine(nil).ParseString(srcs[i])
+			ft, err := c03Engine().ParseString(srcs[i])
 			if err != nil {
 				return hx.V("harness-error", "fresh parse: %v", err)
 			}
-			pristine[key], _ = render(ft, c03Extras(c.Envs[j].Realise()))
+			pristine[key], _ = render(ft, c03Extras(c.Envs[j].Realise(), j))
 		}
 		if r := i - len(c.Templates); r >= 0 && r < len(c.RawWant) && c.RawWant[r] != "" && got != resultString(c.RawWant[r], nil) {
 			return hx.V("c03:depends-on-history", "step %d: template %d %q gives %s; whatever was rendered before, it is to give %q%s", k+1, i, srcs[i], trunc(got, 300), c.RawWant[r], history(k))
@@ -188,7 +204,7 @@ var c03History = hx.Define("c03.history", func(c *c03Case, s *hx.Sub) *hx.Violat
 		}
 		// no variable made by this render survives into the next one
 		pg, _ := render(probe, envs[j])
-		fresh, _ := render(probe, c03Extras(c.Envs[j].Realise()))
+		fresh, _ := render(probe, c03Extras(c.Envs[j].Realise(), j))
 		if pg != fresh {
 			return hx.V("c03:state-survives", "step %d: after rendering template %d with environment %d a probe of the variables gives %s; with fresh bindings %s%s", k+1, i, j, trunc(pg, 300), trunc(fresh, 300), history(k))
 		}
@@ -244,6 +260,13 @@ func TestC03(t *testing.T) {
 		for i, n := 0, rapid.IntRange(0, 3).Draw(t, "nfixed"); i < n; i++ {
 			f := rapid.SampledFrom(fixed).Draw(t, "fixed")
 			c.Raw, c.RawWant = append(c.Raw, f[0]), append(c.RawWant, f[1])
+		}
+		// templates whose outcome depends on the environment in ways a template object might remember:
+		// the name of an included partial, the order of a map's Liquid-equal keys
+		perEnv := []string{"<{% include partial %}>", "{% for pn in pnames %}{% include pn %};{% endfor %}{{ inc_a }}", "{% for kv in mx %}{{ kv[1] }} {% endfor %}|{{ mx | join: ',' }}",
+			"{% include partial %}{% for pn in pnames reversed %}{% include pn %}{% endfor %}"}
+		for i, n := 0, rapid.IntRange(0, 2).Draw(t, "nperenv"); i < n; i++ {
+			c.Raw, c.RawWant = append(c.Raw, rapid.SampledFrom(perEnv).Draw(t, "perenv")), append(c.RawWant, "")
 		}
 		dates := []string{"2020-05-03 04:05:06 +0000", "2020-05-03 04:05:06 EST", "2015-06-07", "March 14, 2016", "2017-07-09T10:40:00Z", "Jan 2 2006", "2020-05-03 04:05:06 +0100", "not a date"}
 		for j, n := 0, rapid.IntRange(2, 4).Draw(t, "nenvs"); j < n; j++ {
